@@ -1343,6 +1343,20 @@ func runC02(r *Run) {
 		in.Msg = strings.Repeat("long message ", 8000)
 		in.Args = []C02Arg{{Kind: "str", S: "k"}, {Kind: "str", S: strings.Repeat("y", 100000)}}
 		c02One(r, snap, in, runeSet)
+		// the reserved-looking keys with values of other kinds than the field of that name has (a string, an int, nil,
+		// a duration, a group): ordinary attributes, no panic
+		for _, key := range []string{"time", "level", "msg", "logger", "caller"} {
+			for _, val := range []GVal{{Kind: "string", S: "not a time"}, {Kind: "int", I: 7}, {Kind: "nil"}, {Kind: "duration", I: 1500},
+				{Kind: "time", I: 12345}} {
+				v := val
+				if key == "time" && v.Kind == "time" {
+					continue // (an attribute named time that IS a time is printed in the timestamp's layout: outside the encoder model)
+				}
+				in := base(infoM, mode, 4)
+				in.Args = []C02Arg{{Kind: "str", S: key}, {Kind: "val", Val: &v}, {Kind: "str", S: "k"}, i42}
+				c02One(r, snap, in, runeSet)
+			}
+		}
 		// multi-line messages whose continuation lines are about as long as / longer than a fresh pooled
 		// buffer (1 KiB), each formatted on fresh pools: the record is still ONE Write
 		for _, n := range []int{600, 800, 1000, 1200, 5000} {
